@@ -297,6 +297,9 @@ pub fn catch<T>(f: impl FnOnce() -> T) -> Result<T, String> {
 
 /// Silences the default panic hook output (panics are caught and judged).
 pub fn quiet_panics() {
+    if std::env::var_os("YV_SHOW_PANICS").is_some() {
+        return; // debugging aid: keep the default hook (message + backtrace)
+    }
     std::panic::set_hook(Box::new(|_| {}));
 }
 
